@@ -11,7 +11,7 @@
   do <call>…         control calls made back to back: start pause resume stop reset emit:<id>:s|f|b
   defer <call>…      the same calls posted with runNext
   adv <k>            clock += 100k ms        pass   nothing
-  cfg <abcde>        (debug) select the unrepaired code: a=fixPar b=fixReplay c=fixFin d=fixBlk e=fixRep, each 0/1
+  cfg <abcd>         (debug) select the unrepaired code: a=fixPar b=fixReplay c=fixFin d=fixBlk, each 0/1
 
 After every op the rest of the loop pass runs (queued tasks) and the timer phase of the next pass.
 Output: `P e …` one line per event, then `P r=<call results> s=<state+result of every node>`.
@@ -245,9 +245,9 @@ def stepLine (ds : DS) (line : String) : DS × List String :=
   | "case" :: _ => ({}, [line.trimAscii.toString])
   | ["cfg", bits] =>
       match bits.toList with
-      | [a, b, c, e, f] =>
-          if [a, b, c, e, f].all (fun x => x == '0' || x == '1') && ds.tree.isNone then
-            ({ ds with cfg := { fixPar := a == '1', fixReplay := b == '1', fixFin := c == '1', fixBlk := e == '1', fixRep := f == '1' } }, ["P cfg"])
+      | [a, b, c, e] =>
+          if [a, b, c, e].all (fun x => x == '0' || x == '1') && ds.tree.isNone then
+            ({ ds with cfg := { fixPar := a == '1', fixReplay := b == '1', fixFin := c == '1', fixBlk := e == '1' } }, ["P cfg"])
           else (ds, ["bad-op"])
       | _ => (ds, ["bad-op"])
   | "tree" :: toks =>
@@ -288,7 +288,7 @@ def stepLine (ds : DS) (line : String) : DS × List String :=
                        ++ (if WF t' || ds.cfg != {} then [] else ["P MONITOR tree-invariant-WF-broken"])
         -- the documented meaning, for runs without control calls
         let spec :=
-          if ds.plain && evalOk t && ds.cfg.fixRep then
+          if ds.plain && evalOk t then
             match evs.find? (fun e => match e with | .rootFin _ _ _ => true | _ => false), eval t with
             | some (.rootFin s w _), some (s', w') =>
                 if s == s' && w == w' then ["B spec-agree"] else [s!"P MONITOR result-differs-from-documented-meaning doc={s'} {w'}"]
